@@ -197,6 +197,27 @@ func c01Gates(c *Ctx, p *Prog, m *Model, tags string) {
 		"Entry.WriteThru":     "adapter plumbing (LogSlogAware): the log/slog handler contract gates through Handler.Enabled; in-package callers judged under C15",
 		"Entry.WriteInternal": "adapter plumbing (LogLoggerAware): gated by the bridge writer, judged under C15",
 	}
+	// the record the sink issues about a failed Write is a record like any other: it re-enters through a gated entry
+	// point, never below the admission test (a logger at Error level admits no warning, diagnostic or not)
+	region := failureRegion(p, m)
+	inRegion := map[*ssa.Function]bool{}
+	for _, fn := range region {
+		inRegion[fn] = true
+	}
+	for _, fn := range region {
+		for _, cs := range callsIn(fn) {
+			cal := calleeOf(cs)
+			if cal == nil || !m.Spine[cal] || inRegion[cal] || fn == cal.Parent() {
+				continue
+			}
+			key := "reentry:" + shortName(fn) + "->" + shortName(cal)
+			if path := m.ungatedPath(cal, map[*ssa.Function]bool{}); path != nil {
+				r.Bad("R01.1", key, p.Pos(instrPos(cs)), "the diagnostic record re-enters the logging path below the admission test: %s; it is written whatever the logger's level", strings.Join(path, " -> "))
+			} else {
+				r.Ok("R01.1", key, p.Pos(instrPos(cs)), "the diagnostic record re-enters through a gated entry point")
+			}
+		}
+	}
 	roots := m.Roots()
 	rootSet := map[*ssa.Function]bool{}
 	for _, fn := range roots {
